@@ -38,6 +38,9 @@ type ClassV struct {
 	Ctor    *CtorDef
 	Mod     *modEnv
 	Builtin bool // 异常
+	// Defaults - the default property values, evaluated once when the type is declared;
+	// every object starts from its own copy of them
+	Defaults map[string]Value
 }
 
 // ExcV - built-in exception value (class 异常)
@@ -710,12 +713,14 @@ func (in *Interp) defFunc(d *FuncDef, sc *scope, m *modEnv) *ctl {
 }
 
 func (in *Interp) defClass(d *ClassDef, sc *scope, m *modEnv, fr *frame) *ctl {
-	cv := &ClassV{Name: d.Name, Def: d, Mod: m}
+	cv := &ClassV{Name: d.Name, Def: d, Mod: m, Defaults: map[string]Value{}}
 	// default property values are evaluated at definition time
 	for i := range d.Props {
-		if _, c := in.eval(d.Props[i].Init, sc, fr); c != nil {
+		dv, c := in.eval(d.Props[i].Init, sc, fr)
+		if c != nil {
 			return c
 		}
+		cv.Defaults[d.Props[i].Name] = Copy(dv)
 	}
 	if c := in.declare(sc, d.Name, cv, true); c != nil {
 		return c
@@ -762,13 +767,9 @@ func (in *Interp) construct(cls *ClassV, args []Value) (Value, *ctl) {
 	in.nextObj++
 	obj := &ObjV{Class: cls, Props: map[string]Value{}, ID: in.nextObj}
 	fr := &frame{mod: cls.Mod}
+	_ = fr
 	for i := range cls.Def.Props {
-		// literal defaults: re-evaluating yields a fresh copy per instance
-		v, c := in.eval(cls.Def.Props[i].Init, cls.Mod.top, fr)
-		if c != nil {
-			return nil, c
-		}
-		obj.Props[cls.Def.Props[i].Name] = Copy(v)
+		obj.Props[cls.Def.Props[i].Name] = Copy(cls.Defaults[cls.Def.Props[i].Name])
 	}
 	if cls.Ctor != nil {
 		_, c := in.callBody(cls.Ctor.Params, cls.Ctor.Body, cls.Ctor.Catches, args, cls.Mod, obj)
